@@ -90,6 +90,9 @@ type crashCtx struct {
 	lo, loNoIngest, nAcked int
 	inflight               *groupInfo
 	ackedDurable           []*kvmodel.Group // durable ingests/excises acknowledged by k
+	// inSpan, if set, restricts the comparison to point keys inside a span
+	// (restricted checkpoints); range keys are then not compared.
+	inSpan func(k string) bool
 }
 
 func (h *dbHarness) crashCtxAt(k int) *crashCtx {
@@ -152,8 +155,28 @@ func (h *dbHarness) matchRecovered(c *crashCtx, pts []kvmodel.KV, spans []kvmode
 		nAcked = len(groups)
 	}
 	var firstDiff string
+	if c.inSpan != nil {
+		var f []kvmodel.KV
+		for _, kv := range pts {
+			if c.inSpan(kv.K) {
+				f = append(f, kv)
+			}
+		}
+		pts = f
+	}
 	try := func(st *kvmodel.State) bool {
-		d := diffState(st, pts, spans)
+		var d string
+		if c.inSpan != nil {
+			var want []kvmodel.KV
+			for _, kv := range st.Points() {
+				if c.inSpan(kv.K) {
+					want = append(want, kv)
+				}
+			}
+			d = kvmodel.DiffPoints(want, pts)
+		} else {
+			d = diffState(st, pts, spans)
+		}
 		if d != "" && firstDiff == "" {
 			firstDiff = d
 		}
